@@ -131,25 +131,33 @@ Section Clauses.
      in append mode, at the handle's offset otherwise, and the file afterwards is put_bytes - byte by
      byte described by put_bytes_nth: old bytes, ZEROS in [size, pos), then b. *)
   Lemma f_write_ok b :
-    has (hd_mode f) OpenWrite = true ->
+    has (hd_mode f) OpenWrite = true -> b <> [] ->
     let pos := if has (hd_mode f) OpenAppend then zlen d else hd_at f in
     f_write s v f b =
       (with_heap s (upd (f_heap s) c (NFile (put_bytes d (Z.to_nat pos) b) k i m)),
        set_at f (pos + zlen b), RInt (zlen b)).
   Proof.
-    intros Hw pos. unfold f_write.
+    intros Hw Hb pos. unfold f_write.
     destruct (hd_name f) eqn:En; [congruence|].
-    rewrite Hnode, file_of_c, Hw. cbn [negb].
+    rewrite Hnode, file_of_c, Hw. cbn [negb]. destruct b as [|b0 b']; [congruence|].
     rewrite write_at_data_put. reflexivity.
   Qed.
 
+  (* a write of zero bytes changes nothing *)
+  Lemma f_write_nil : f_write s v f [] = (s, f, if has (hd_mode f) OpenWrite then RInt 0
+                                                 else RFail (if isw then EW_AccessDenied else EC_BadFileDesc)).
+  Proof.
+    unfold f_write. destruct (hd_name f) eqn:En; [congruence|].
+    rewrite Hnode, file_of_c. destruct (has (hd_mode f) OpenWrite); reflexivity.
+  Qed.
+
   Lemma f_write_at_ok b off :
-    has (hd_mode f) OpenWrite = true -> 0 <= off ->
+    has (hd_mode f) OpenWrite = true -> 0 <= off -> b <> [] ->
     f_write_at s v f b off =
       (with_heap s (upd (f_heap s) c (NFile (put_bytes d (Z.to_nat off) b) k i m)), RInt (zlen b)).
   Proof.
-    intros Hw Hoff. unfold f_write_at.
-    destruct (Z.ltb_spec off 0); [lia|].
+    intros Hw Hoff Hb. unfold f_write_at.
+    destruct (Z.ltb_spec off 0); [lia|]. destruct b as [|b0 b']; [congruence|].
     destruct (hd_name f) eqn:En; [congruence|].
     rewrite Hnode, file_of_c, Hw. cbn [negb].
     rewrite write_at_data_put. reflexivity.
@@ -157,54 +165,65 @@ Section Clauses.
 
   (* C02_gap: a write at an offset at or beyond the end leaves the old bytes, a zero-filled gap, then b *)
   Lemma gap_write b :
-    has (hd_mode f) OpenWrite = true -> has (hd_mode f) OpenAppend = false -> zlen d <= hd_at f ->
+    has (hd_mode f) OpenWrite = true -> has (hd_mode f) OpenAppend = false -> zlen d <= hd_at f -> b <> [] ->
     f_write s v f b =
       (with_heap s (upd (f_heap s) c (NFile (d ++ zeros (Z.to_nat (hd_at f) - length d) ++ b) k i m)),
        set_at f (hd_at f + zlen b), RInt (zlen b)).
   Proof.
-    intros Hw Ha Hoff. rewrite f_write_ok by assumption. rewrite Ha.
+    intros Hw Ha Hoff Hb. rewrite f_write_ok by assumption. rewrite Ha.
     rewrite put_bytes_beyond by (unfold zlen in Hoff; lia). reflexivity.
   Qed.
 
   Lemma gap_write_at b off :
-    has (hd_mode f) OpenWrite = true -> zlen d <= off ->
+    has (hd_mode f) OpenWrite = true -> zlen d <= off -> b <> [] ->
     f_write_at s v f b off =
       (with_heap s (upd (f_heap s) c (NFile (d ++ zeros (Z.to_nat off - length d) ++ b) k i m)), RInt (zlen b)).
   Proof.
-    intros Hw Hoff. unfold zlen in Hoff. rewrite f_write_at_ok by (auto; lia).
+    intros Hw Hoff Hb. unfold zlen in Hoff. rewrite f_write_at_ok by (auto; lia).
     rewrite put_bytes_beyond by lia. reflexivity.
   Qed.
 
   (* C02_append: in append mode the write lands at the current end, whatever the handle's offset is *)
   Lemma append_write b :
-    has (hd_mode f) OpenWrite = true -> has (hd_mode f) OpenAppend = true ->
+    has (hd_mode f) OpenWrite = true -> has (hd_mode f) OpenAppend = true -> b <> [] ->
     f_write s v f b =
       (with_heap s (upd (f_heap s) c (NFile (d ++ b) k i m)), set_at f (zlen d + zlen b), RInt (zlen b)).
   Proof.
-    intros Hw Ha. rewrite f_write_ok by assumption. rewrite Ha.
+    intros Hw Ha Hb. rewrite f_write_ok by assumption. rewrite Ha.
     unfold zlen. rewrite Nat2Z.id, put_bytes_at_end. reflexivity.
   Qed.
 
   (* C02_access: without OpenRead no data is ever returned; without OpenWrite nothing changes *)
   Lemma no_read_no_data n off :
-    has (hd_mode f) OpenRead = false ->
+    has (hd_mode f) OpenRead = false -> 0 < n ->
     (exists e, f_read s v f n = (f, RFail e)) /\ (exists e, f_read_at s v f n off = RFail e).
   Proof.
-    intros Hr. unfold f_read, f_read_at.
+    intros Hr Hn. unfold f_read, f_read_at.
+    destruct (Z.leb_spec n 0); [lia|].
     destruct (hd_name f) eqn:En; [congruence|].
     rewrite Hnode, file_of_c, Hr. cbn [negb]. split; [eauto|].
     destruct (Z.ltb off 0); eauto.
   Qed.
 
+  (* an empty buffer is "read" at once: no data either *)
+  Lemma empty_read_no_data n off : n <= 0 ->
+    f_read s v f n = (f, RBytes 0 [] None)
+    /\ f_read_at s v f n off = (if Z.ltb off 0 then RFail EG_NegativeOffset else RBytes 0 [] None).
+  Proof.
+    intros Hn. unfold f_read, f_read_at. destruct (Z.leb_spec n 0); [|lia].
+    destruct (hd_name f) eqn:En; [congruence|]. rewrite Hnode. auto.
+  Qed.
+
   Lemma no_write_no_change b off size :
     has (hd_mode f) OpenWrite = false ->
-    (exists e, f_write s v f b = (s, f, RFail e)) /\ (exists e, f_write_at s v f b off = (s, RFail e))
+    (exists e, f_write s v f b = (s, f, RFail e)) /\ (exists r, f_write_at s v f b off = (s, r) /\ (b <> [] -> exists e, r = RFail e))
     /\ (exists e, f_truncate s v f size = (s, RFail e)).
   Proof.
     intros Hw. unfold f_write, f_write_at, f_truncate.
     destruct (hd_name f) eqn:En; [congruence|].
     rewrite Hnode, file_of_c, Hw. cbn [negb]. repeat split; eauto.
-    - destruct (Z.ltb off 0); eauto.
+    - destruct (Z.ltb off 0); [eexists; split; eauto|].
+      destruct b as [|b0 b']; eexists; split; eauto; congruence.
     - destruct (Z.ltb size 0); eauto.
   Qed.
 End Clauses.
@@ -217,11 +236,13 @@ Definition is_closed_err (r : res) : Prop := r = RFail EG_Closed \/ r = RFail EG
 Lemma closed_handle s v f :
   hd_name f <> [] -> hd_node f = None -> win v = false ->
   (forall n, f_read s v f n = (f, RFail EG_Closed))
-  /\ (forall n off, f_read_at s v f n off = RFail EG_Closed)
+  /\ (forall n off, f_read_at s v f n off =
+        if Z.ltb off 0 then RFail EG_NegativeOffset else if Z.leb n 0 then RBytes 0 [] None else RFail EG_Closed)
   /\ (forall b, f_write s v f b = (s, f, RFail EG_Closed))
-  /\ (forall b off, f_write_at s v f b off = (s, RFail (if Z.ltb off 0 then EG_NegativeOffset else EG_Closed)))
+  /\ (forall b off, f_write_at s v f b off =
+        (s, if Z.ltb off 0 then RFail EG_NegativeOffset else match b with [] => RInt 0 | _ => RFail EG_Closed end))
   /\ (forall off wh, f_seek s v f off wh = (f, RFail EG_Closed))
-  /\ (forall size, f_truncate s v f size = (s, RFail (if Z.ltb size 0 then EInvalidArgument else EG_Closed)))
+  /\ (forall size, f_truncate s v f size = (s, RFail EG_Closed))
   /\ f_stat s v f = RFail EG_FileClosing
   /\ f_sync f = RFail EG_Closed
   /\ (forall mode, f_chmod s v f mode = (s, RFail EG_Closed))
@@ -236,8 +257,7 @@ Proof.
     f_close, f_read_dir, f_readdirnames, closed_err.
   rewrite Hc, Hw. destruct (hd_name f) eqn:En; [congruence|].
   repeat split; intros; try reflexivity.
-  - destruct (Z.ltb off 0); reflexivity.
-  - destruct (Z.ltb size 0); reflexivity.
+  destruct (Z.ltb off 0); [reflexivity|]. destruct b; reflexivity.
 Qed.
 
 (* ---- C02_unlinked ------------------------------------------------------------------ *)
@@ -266,6 +286,7 @@ Proof.
   destruct (get (f_heap s) c) as [[ch mm|dd kk ii mm|ll mm]|] eqn:Eg; cbn [fst snd];
     try (repeat split; congruence).
   destruct (negb (has (hd_mode f) OpenWrite)); cbn [fst snd f_heap with_heap]; [repeat split; congruence|].
+  destruct b as [|b0 b']; cbn [fst snd f_heap with_heap]; [repeat split; congruence|].
   assert (Hl : (c < length (f_heap s))%nat) by (eapply get_some_lt; eauto).
   assert (Hl' : (c < length (f_heap s'))%nat) by (eapply get_some_lt; rewrite Hg; eauto).
   rewrite !get_upd_same by assumption. auto.
@@ -274,7 +295,7 @@ Qed.
 (* what Remove / Rename do to a file node: through delete_node only *)
 Lemma delete_node_file h c d k i m :
   get h c = Some (NFile d k i m) ->
-  get (delete_node h c) c = Some (NFile (if Z.eqb (k - 1) 0 then [] else d) (k - 1) i m).
+  get (delete_node h c) c = Some (NFile d (k - 1) i m).
 Proof.
   intros H. unfold delete_node. rewrite H. apply get_upd_same. eapply get_some_lt; eauto.
 Qed.
@@ -305,7 +326,7 @@ Qed.
 Lemma remove_effect s v name s' c d k i m :
   remove s v name = (s', ROk) -> get (f_heap s) c = Some (NFile d k i m) ->
   get (f_heap s') c = Some (NFile d k i m)
-  \/ get (f_heap s') c = Some (NFile (if Z.eqb (k - 1) 0 then [] else d) (k - 1) i m).
+  \/ get (f_heap s') c = Some (NFile d (k - 1) i m).
 Proof.
   intros Hr Hc. unfold remove in Hr.
   destruct (sr_child (search_node s v name SlLstat)) as [c'|]; [|discriminate].
@@ -315,7 +336,7 @@ Proof.
   destruct (negb (perm_on _ _ _ _)); [discriminate|].
   assert (Hfin : forall part, get (delete_node (remove_child (f_heap s) p part) c') c = Some (NFile d k i m)
                  \/ get (delete_node (remove_child (f_heap s) p part) c') c =
-                    Some (NFile (if Z.eqb (k - 1) 0 then [] else d) (k - 1) i m)).
+                    Some (NFile d (k - 1) i m)).
   { intros part. destruct (Nat.eq_dec c c') as [<-|Hne].
     - right. apply delete_node_file. now apply remove_child_file.
     - left. rewrite delete_node_other by auto. now apply remove_child_file. }
@@ -334,7 +355,7 @@ Ltac walk_ok Hr :=
 Lemma rename_effect s v o n s' c d k i m :
   rename s v o n = (s', ROk) -> get (f_heap s) c = Some (NFile d k i m) ->
   get (f_heap s') c = Some (NFile d k i m)
-  \/ get (f_heap s') c = Some (NFile (if Z.eqb (k - 1) 0 then [] else d) (k - 1) i m).
+  \/ get (f_heap s') c = Some (NFile d (k - 1) i m).
 Proof.
   intros Hr Hc.
   assert (Hmove : forall h0 np oc op a b, get h0 c = Some (NFile d k i m) ->
@@ -343,7 +364,7 @@ Proof.
   assert (Hdel : forall nc np oc op a b,
             get (remove_child (add_child (delete_node (f_heap s) nc) np a oc) op b) c = Some (NFile d k i m)
             \/ get (remove_child (add_child (delete_node (f_heap s) nc) np a oc) op b) c
-               = Some (NFile (if Z.eqb (k - 1) 0 then [] else d) (k - 1) i m)).
+               = Some (NFile d (k - 1) i m)).
   { intros nc np oc op a b. destruct (Nat.eq_dec c nc) as [<-|Hne].
     - right. apply remove_child_file, add_child_file. now apply delete_node_file.
     - left. apply Hmove. now rewrite delete_node_other. }
@@ -942,9 +963,9 @@ Section StepRefine.
   Lemma Rel_same_handle fd f : nth_error (w_handles w) fd = Some f -> Rel ptr (with_handle w fd f) st.
   Proof. intros H. unfold Rel. cbn [with_handle w_fs w_views w_handles]. now apply Rel_same_fd. Qed.
 
-  Lemma step_read fd n : kf02 st (Read fd n) = None -> step_ok (Read fd n).
+  Lemma step_read fd n : step_ok (Read fd n).
   Proof.
-    intros Hkf. unfold step_ok. cbn [impl_call wstep fspec_step].
+    unfold step_ok. cbn [impl_call wstep fspec_step].
     destruct (nth_error (st_fds st) fd) as [o|] eqn:Efd.
     2:{ rewrite no_fd_handle, on_fd_none by auto. cbn. auto. }
     destruct (some_fd_handle fd o Efd) as (f & v & Hf & Hg & Hrel & Hon). rewrite Hon.
@@ -957,9 +978,9 @@ Section StepRefine.
     - destruct Hrel as (Hview & Hname & Hnode & Hlt & Hat & Hr & Hw & Ha). rewrite Ecl in Hnode.
       destruct (open_inode o Hlt) as (ino & id & Eino & Hperm & Hget).
       erewrite on_fd_open by eassumption.
-      unfold kf02 in Hkf. erewrite fd_get_some in Hkf by eassumption. rewrite Ecl in Hkf. cbn [negb andb] in Hkf.
-      destruct (Z.leb n 0) eqn:En; [discriminate|].
       unfold f_read. destruct (hd_name f) eqn:Enm; [congruence|]. rewrite Hnode.
+      destruct (Z.leb n 0) eqn:En.
+      { cbn. split; auto. now apply Rel_same_handle. }
       unfold file_of. rewrite Hget, Hr.
       destruct (can_read (o_acc o)) eqn:Ecr; cbn [negb].
       2:{ cbn. split; auto. now apply Rel_same_handle. }
@@ -1003,67 +1024,50 @@ Section StepRefine.
     destruct (negb _); reflexivity.
   Qed.
 
-  Lemma step_read_at fd n off : kf02 st (ReadAt fd n off) = None -> step_ok (ReadAt fd n off).
+  Lemma step_read_at fd n off : step_ok (ReadAt fd n off).
   Proof.
-    intros Hkf. unfold step_ok. rewrite readat_state. cbn [impl_call wstep fspec_step].
+    unfold step_ok. rewrite readat_state. cbn [impl_call wstep fspec_step].
     fd_cases fd o Efd f v Hf Hg Hrel Hon.
     2:{ rewrite no_fd_handle by auto. destruct (Z.ltb off 0), (Z.leb n 0); rewrite ?on_fd_none by auto; cbn; auto. }
     cbn [fst snd]. split; [|exact HR].
     destruct Hrel as (Hview & Hname & Hnode & Hlt & Hat & Hr & Hw & Ha).
     destruct (open_inode o Hlt) as (ino & id & Eino & Hperm & Hget).
-    use_kf Hkf Efd Eino.
+    unfold f_read_at.
+    destruct (Z.ltb_spec off 0) as [Hoff|Hoff]; [reflexivity|].
+    destruct (Z.leb_spec n 0) as [Hn|Hn]; [reflexivity|].
+    destruct (hd_name f) eqn:Enm; [congruence|]. rewrite Hnode.
     destruct (o_closed o) eqn:Ecl.
-    - destruct (closed_handle (w_fs w) v f Hname Hnode (good_view_win Hg)) as (_ & C & _). rewrite C.
-      destruct (Z.ltb off 0); [discriminate|]. destruct (Z.leb n 0); [discriminate|].
-      erewrite on_fd_closed by eassumption. reflexivity.
-    - unfold f_read_at. destruct (hd_name f) eqn:Enm; [congruence|]. rewrite Hnode.
+    - erewrite on_fd_closed by eassumption. reflexivity.
+    - erewrite on_fd_open by eassumption.
       unfold file_of. rewrite Hget, Hr.
-      destruct (Z.ltb_spec off 0) as [Hoff|Hoff]; [reflexivity|].
-      destruct (Z.leb_spec n 0) as [Hn|Hn].
-      + destruct (can_read (o_acc o)); cbn [negb orb] in *; [|discriminate].
-        destruct (Z.ltb_spec (zlen (i_bytes ino)) off) as [Hb|Hb]; [discriminate|].
-        unfold zlen in Hb. destruct (Z.ltb_spec (Z.of_nat (length (i_bytes ino))) off); [lia|].
-        replace (Z.to_nat n) with 0%nat by lia. cbn [firstn length Z.of_nat].
-        destruct (Z.ltb_spec 0 n); [lia|]. reflexivity.
-      + erewrite on_fd_open by eassumption.
-        destruct (can_read (o_acc o)); cbn [negb]; [|reflexivity].
-        unfold get_bytes, zlen.
-        destruct (Z.ltb_spec (Z.of_nat (length (i_bytes ino))) off) as [Hb|Hb].
-        * rewrite skipn_all2 by lia. rewrite firstn_nil. cbn [length Z.of_nat].
-          destruct (Z.ltb_spec 0 n); [reflexivity|lia].
-        * destruct (Z.ltb _ n); reflexivity.
+      destruct (can_read (o_acc o)); cbn [negb]; [|reflexivity].
+      unfold get_bytes, zlen.
+      destruct (Z.ltb_spec (Z.of_nat (length (i_bytes ino))) off) as [Hb|Hb].
+      * rewrite skipn_all2 by lia. rewrite firstn_nil. cbn [length Z.of_nat].
+        destruct (Z.ltb_spec 0 n); [reflexivity|lia].
+      * destruct (Z.ltb _ n); reflexivity.
   Qed.
 
-  Lemma step_write fd b : kf02 st (Write fd b) = None -> step_ok (Write fd b).
+  Lemma step_write fd b : step_ok (Write fd b).
   Proof.
-    intros Hkf. unfold step_ok. cbn [impl_call wstep fspec_step].
+    unfold step_ok. cbn [impl_call wstep fspec_step].
     fd_cases fd o Efd f v Hf Hg Hrel Hon.
     2:{ rewrite no_fd_handle, on_fd_none by auto. cbn. auto. }
     destruct Hrel as (Hview & Hname & Hnode & Hlt & Hat & Hr & Hw & Ha).
     destruct (open_inode o Hlt) as (ino & id & Eino & Hperm & Hget).
-    use_kf Hkf Efd Eino.
     destruct (o_closed o) eqn:Ecl.
     - destruct (closed_handle (w_fs w) v f Hname Hnode (good_view_win Hg)) as (_ & _ & C & _). rewrite C.
       erewrite on_fd_closed by eassumption. cbn. split; auto.
       unfold Rel. cbn [with_handle with_fs w_fs w_views w_handles]. now apply Rel_same_fd.
     - erewrite on_fd_open by eassumption.
       destruct (can_write (o_acc o)) eqn:Ecw; cbn [negb].
-      + erewrite f_write_ok by eassumption.
-        rewrite Ha, Hat. cbn [fst snd fproj_res].
-        set (pos := if o_app o then zlen (i_bytes ino) else o_off o).
-        destruct b as [|b0 b'].
-        * cbn [negb andb] in Hkf.
-          assert (Hpos : (Z.to_nat pos <= length (i_bytes ino))%nat /\ pos = o_off o).
-          { unfold pos, zlen in *. destruct (o_app o).
-            - destruct (Z.eqb_spec (o_off o) (Z.of_nat (length (i_bytes ino)))); cbn [negb] in Hkf; [|discriminate]. lia.
-            - destruct (Z.ltb_spec (Z.of_nat (length (i_bytes ino))) (o_off o)); [discriminate|]. lia. }
-          destruct Hpos as [Hp1 Hp2]. rewrite put_bytes_nil by auto. split; [reflexivity|].
-          unfold Rel. cbn [with_handle with_fs w_fs w_views w_handles zlen length Z.of_nat].
-          rewrite Z.add_0_r, Hp2.
-          apply Rel_set_handle with (o := o); auto.
-          -- apply Rel_touch; auto.
-          -- unfold rel_fd, set_at. cbn [hd_view hd_name hd_node hd_at hd_mode]. rewrite Ecl. repeat split; cbn [fst snd]; auto; congruence.
-        * split; [reflexivity|].
+      + destruct b as [|b0 b'].
+        * erewrite f_write_nil by eassumption. rewrite Hw. cbn. split; auto.
+          unfold Rel. cbn [with_handle with_fs w_fs w_views w_handles]. now apply Rel_same_fd.
+        * erewrite f_write_ok by (try eassumption; discriminate).
+          rewrite Ha, Hat. cbn [fst snd fproj_res].
+          set (pos := if o_app o then zlen (i_bytes ino) else o_off o).
+          split; [reflexivity|].
           unfold Rel. cbn [with_handle with_fs w_fs w_views w_handles].
           apply Rel_set_fd.
           -- apply Rel_upd_inode with (ino := ino)
@@ -1077,7 +1081,7 @@ Section StepRefine.
         unfold Rel. cbn [with_handle with_fs w_fs w_views w_handles]. now apply Rel_same_fd.
   Qed.
 
-  Lemma step_write_string fd b : kf02 st (WriteString fd b) = None -> step_ok (WriteString fd b).
+  Lemma step_write_string fd b : step_ok (WriteString fd b).
   Proof. exact (step_write fd b). Qed.
 
   Ltac same_world := unfold Rel; cbn [with_handle with_fs w_fs w_views w_handles]; try (now apply Rel_same_fd); try exact HR.
@@ -1094,26 +1098,23 @@ Section StepRefine.
     unfold lift.
     destruct (Z.ltb_spec off 0) as [Hoff|Hoff].
     { unfold f_write_at. destruct (Z.ltb_spec off 0); [|lia]. cbn. split; auto; same_world. }
+    destruct b as [|b0 b'].
+    { unfold f_write_at. destruct (Z.ltb_spec off 0); [lia|]. cbn. split; auto; same_world. }
     destruct (o_closed o) eqn:Ecl.
     - destruct (closed_handle (w_fs w) v f Hname Hnode (good_view_win Hg)) as (_ & _ & _ & C & _). rewrite C.
       destruct (Z.ltb_spec off 0); [lia|].
-      destruct b as [|b0 b']; [discriminate|].
       erewrite on_fd_closed by eassumption. cbn. split; auto; same_world.
-    - destruct (can_write (o_acc o)) eqn:Ecw.
-      + erewrite f_write_at_ok by eassumption. cbn [fst snd fproj_res].
-        destruct b as [|b0 b'].
-        * cbn [negb orb] in Hkf. destruct (Z.ltb_spec (zlen (i_bytes ino)) off) as [Hb|Hb]; [discriminate|].
-          unfold zlen in Hb. rewrite put_bytes_nil by lia. split; [reflexivity|].
-          unfold Rel. cbn [with_fs w_fs w_views w_handles]. apply Rel_touch; auto.
-        * erewrite on_fd_open by eassumption. rewrite Ecw. cbn [negb fst snd]. split; [reflexivity|].
-          unfold Rel. cbn [with_fs w_fs w_views w_handles].
-          apply Rel_upd_inode with (ino := ino)
-            (ino' := set_bytes ino (put_bytes (i_bytes ino) (Z.to_nat off) (b0 :: b'))); assumption.
+    - erewrite on_fd_open by eassumption.
+      destruct (can_write (o_acc o)) eqn:Ecw.
+      + erewrite f_write_at_ok by (try eassumption; discriminate). cbn [negb fst snd fproj_res].
+        split; [reflexivity|].
+        unfold Rel. cbn [with_fs w_fs w_views w_handles].
+        apply Rel_upd_inode with (ino := ino)
+          (ino' := set_bytes ino (put_bytes (i_bytes ino) (Z.to_nat off) (b0 :: b'))); assumption.
       + unfold f_write_at. destruct (Z.ltb_spec off 0); [lia|].
         destruct (hd_name f) eqn:Enm; [congruence|]. rewrite Hnode.
         unfold file_of. rewrite Hget, Hw. cbn [negb fst snd fproj_res fproj_err]. rewrite (good_view_win Hg).
-        destruct b as [|b0 b']; [cbn [negb orb] in Hkf; discriminate|].
-        erewrite on_fd_open by eassumption. rewrite Ecw. cbn. split; auto; same_world.
+        cbn. split; auto; same_world.
   Qed.
 
   (* common prologue of the operations that go through on_fd on the specification side *)
@@ -1145,14 +1146,12 @@ Section StepRefine.
       + cbn. split; auto; same_world.
   Qed.
 
-  Lemma step_ftruncate fd size : kf02 st (Ftruncate fd size) = None -> step_ok (Ftruncate fd size).
+  Lemma step_ftruncate fd size : step_ok (Ftruncate fd size).
   Proof.
-    intros Hkf.
     prologue fd Hkf o Efd f v Hf Hg Hon Hview Hname Hnode Hlt Hat Hr Hw Ha ino idn Eino Hperm Hget.
-    use_kf Hkf Efd Eino. unfold lift.
+    unfold lift.
     destruct (o_closed o) eqn:Ecl.
     - destruct (closed_handle (w_fs w) v f Hname Hnode (good_view_win Hg)) as (_ & _ & _ & _ & _ & C & _). rewrite C.
-      cbn [andb] in Hkf. destruct (Z.ltb size 0); [discriminate|].
       erewrite on_fd_closed by eassumption. cbn. split; auto; same_world.
     - erewrite on_fd_open by eassumption.
       unfold f_truncate. destruct (hd_name f) eqn:Enm; [congruence|]. rewrite Hnode.
@@ -1300,16 +1299,15 @@ Section StepRefine.
   Proof. unfold fpath, DIRP. cbn. discriminate. Qed.
 
   Lemma step_open name flag perm :
-    in_scope st (Open name flag perm) = true -> kf02 st (Open name flag perm) = None ->
-    step_ok (Open name flag perm).
+    in_scope st (Open name flag perm) = true -> step_ok (Open name flag perm).
   Proof.
-    intros Hsc Hkf. unfold in_scope in Hsc.
+    intros Hsc. unfold in_scope in Hsc.
     destruct (lookup_name st name) as [i|] eqn:El; [|discriminate].
     destruct (access_of flag) as [acc|] eqn:Eacc; [|discriminate].
     apply N.ltb_lt in Hsc. destruct (open_mode_bits Hsc) as (Bx & Bt & Ba & Bacc).
     destruct (Bacc acc Eacc) as [Cr Cw].
     destruct (name_inode name i El) as (v & ino & idn & Hv & Hg & Eino & Hperm & Hget & Hlt & Hres).
-    unfold step_ok. unfold kf02 in Hkf. rewrite Eacc in Hkf.
+    unfold step_ok.
     cbn [impl_call wstep]. unfold on_view. rewrite Hv.
     (* the implementation *)
     remember (fpath name) as pth eqn:Ep.
@@ -1319,38 +1317,27 @@ Section StepRefine.
     rewrite He, Hc, Hlast. cbn [is_file_exists is_not_exist negb andb orb]. rewrite Hget.
     rewrite andb_false_r. cbn [is_not_exist].
     destruct Hg as [Hadm Hos]. unfold check_permission. rewrite Hadm. cbn [negb].
-    rewrite Bx, Bt, Ba.
+    rewrite Bx, Bt.
     (* the specification *)
-    cbn [fspec_step] in *. rewrite Eacc, El in *.
+    cbn [fspec_step]. rewrite Eacc, El.
     destruct (fbit flag FO_CREATE && fbit flag FO_EXCL) eqn:Ex.
     { cbn. split; auto; same_world. }
-    rewrite Eino in *.
+    rewrite Eino.
     assert (Hlen : length (w_handles w) = length (st_fds st)) by (apply (Forall2_len (R_fds HR))).
     destruct (fbit flag FO_TRUNC) eqn:Et.
-    - (* O_TRUNC: the file is emptied on both sides *)
-      cbn [fst snd with_inode st_inodes st_names st_fds fproj_res] in *. rewrite Hlen. split; [reflexivity|].
-      unfold fd_get in Hkf. cbn [st_fds st_inodes] in Hkf.
-      rewrite nth_error_app2, Nat.sub_diag in Hkf by lia. cbn [nth_error o_ino] in Hkf.
-      rewrite nth_set_nth_eq in Hkf by auto. cbn [set_bytes i_bytes length Nat.eqb negb andb] in Hkf.
-      rewrite andb_false_r in Hkf.
+    - cbn [fst snd with_inode st_inodes st_names st_fds fproj_res]. rewrite Hlen. split; [reflexivity|].
       unfold Rel. cbn [w_fs w_views w_handles].
       apply (Rel_add_fd _ _ _ (with_inode st i (set_bytes ino []))).
       + apply Rel_upd_inode with (ino := ino) (ino' := set_bytes ino []); assumption.
       + cbn [with_inode st_inodes]. rewrite set_nth_length.
-        unfold rel_fd, new_handle. cbn [hd_view hd_name hd_node hd_at hd_mode o_ino o_off o_acc o_app o_closed length Z.of_nat].
-        repeat split; auto; try discriminate. now destruct (fbit flag FO_APPEND).
-    - cbn [fst snd st_inodes st_names st_fds fproj_res] in *. rewrite Hlen. split; [reflexivity|].
-      unfold fd_get in Hkf. cbn [st_fds st_inodes] in Hkf.
-      rewrite nth_error_app2, Nat.sub_diag in Hkf by lia. cbn [nth_error o_ino] in Hkf. rewrite Eino in Hkf.
-      cbn [o_app] in Hkf.
+        unfold rel_fd, new_handle. cbn [hd_view hd_name hd_node hd_at hd_mode o_ino o_off o_acc o_app o_closed].
+        repeat split; auto; try discriminate.
+    - cbn [fst snd st_inodes st_names st_fds fproj_res]. rewrite Hlen. split; [reflexivity|].
       unfold Rel. cbn [w_fs w_views w_handles].
       apply (Rel_add_fd _ _ _ st).
       + apply Rel_touch; assumption.
       + unfold rel_fd, new_handle. cbn [hd_view hd_name hd_node hd_at hd_mode o_ino o_off o_acc o_app o_closed].
         repeat split; auto; try discriminate.
-        destruct (fbit flag FO_APPEND); [|reflexivity].
-        cbn [andb] in Hkf. destruct (Nat.eqb_spec (length (i_bytes ino)) 0) as [H0|H0]; [|discriminate].
-        rewrite H0. reflexivity.
   Qed.
 End StepRefine.
 
